@@ -27,12 +27,13 @@ type GenOpts struct {
 var (
 	plainLocals = []string{"a", "b", "c", "d", "x", "item"}
 	weirdLocals = []string{"a-1", "b.c", "x2", "child", "text", "self", "node", "comment", "parent", "attribute", "ab-cd.e9",
-		"ancestor", "preceding", "following", "descendant", "ancestors", "preceding-item", "namespace", "ancestor-or-self", "following-sibling", "#h"}
-	uris        = []string{"urn:a", "urn:b", "http://x.y/z"}
-	prefixes    = []string{"p", "q", "r"}
-	attrLocals  = []string{"id", "k", "n", "v"}
-	piTargets   = []string{"pi", "xsl", "t-1", "xml-stylesheet", "xmlfoo"}
-	langTags    = []string{"en", "en-GB", "en-US", "de", "zh", "zh-TW", "zh-Hant", "zh-Hant-TW", "EN", "fr-CA", "x-private", "sr-Latn-RS", "", "e", "eng", "de-CH-1901"}
+		"ancestor", "preceding", "following", "descendant", "ancestors", "preceding-item", "namespace", "ancestor-or-self", "following-sibling", "nan", "inf", "Infinity", "NaN", "e", "#h"}
+	uris       = []string{"urn:a", "urn:b", "http://x.y/z"}
+	prefixes   = []string{"p", "q", "r"}
+	attrLocals = []string{"id", "k", "n", "v"}
+	piTargets  = []string{"pi", "xsl", "t-1", "xml-stylesheet", "xmlfoo"}
+	langTags   = []string{"en", "en-GB", "en-US", "de", "zh", "zh-TW", "zh-Hant", "zh-Hant-TW", "EN", "fr-CA", "x-private", "sr-Latn-RS", "", "e", "eng", "de-CH-1901",
+		"zh_TW", "EN_us", "DE-ö", "sr-Latn@x", "X-[a]-b", "A`", "en-{a}", "EN-[a]", "Én", "en-É", "En-\u0130", "a^b-C"}
 )
 
 func LangTags() []string { return langTags }
@@ -328,7 +329,6 @@ func Generate(r *rng.R, o GenOpts) *Doc {
 	g.d.Finish()
 	return g.d
 }
-
 
 // NSQuirks adds namespace-declaration patterns a scripted parser (or unusual
 // XML) can produce: a prefix declared twice on one element with other
